@@ -15,6 +15,7 @@ RULE = ('one real stack (either data link layer, 1-2 CAs, in half the runs with 
         'duplicates, coherent session fragments) with gaps from 0 to beyond each timeout, plus reactive frames (abort, CTS, hold, acknowledge for the stack\'s own sessions) processed from inside the stack\'s own k-th transmission; then liveness, timer cadence, release of all sessions and a '
         'well-formed transfer in each direction with the reference peer are checked. non-trivial = at least one injected frame was processed past '
         'the destination filter (it changed a table, caused a transmission, a delivery or an exception); distinct = distinct scenario JSON')
+FAULT_COUNTERS = {'hostile / malformed frames fed': 'frames_fed', "reactive frames processed inside the stack's own transmission": 'reactive_frames', 'exceptions raised to the feeding caller': 'notify_exceptions'}
 REQUIRED_PROBES = ['frames_fed', 'frames_effective', 'notify_exceptions', 'sessions_opened', 'own_transfer_runs', 'followup_ok', 'reactive_frames']
 P_ADDR, Q_ADDR, FOREIGN = 0x42, 0x43, 0x99
 PROBE_PERIOD = 0.010
